@@ -376,53 +376,24 @@ class ANMLReader:
         if name == TK_BOOLEAN:
             return self._tm.BoolType()
         elif name in (TK_INTEGER, TK_FLOAT):
-            lower_bound, upper_bound = None, None
+            lower_bound: Optional[Fraction] = None
+            upper_bound: Optional[Fraction] = None
             if len(type_res) == 2:
-                _p: Dict[str, "up.model.Parameter"] = {}
                 interval = type_res[1]
-                lb_exp = interval[0]
-                if lb_exp != TK_INFINITY:
-                    lower_bound_exp = self._parse_expression(
-                        lb_exp, parameters=_p, types_map=types_map
-                    )
-                    if (
-                        lower_bound_exp.is_int_constant()
-                        or lower_bound_exp.is_real_constant()
-                    ):
-                        lower_bound = lower_bound_exp.constant_value()
-                    else:
-                        raise ANMLSyntaxError(
-                            f"bounds of type {type_res} must be integer or real constants"
-                        )
-                ub_exp = interval[1]
-                if ub_exp != TK_INFINITY:
-                    upper_bound_exp = self._parse_expression(
-                        ub_exp, parameters=_p, types_map=types_map
-                    )
-                    if (
-                        upper_bound_exp.is_int_constant()
-                        or upper_bound_exp.is_real_constant()
-                    ):
-                        upper_bound = upper_bound_exp.constant_value()
-                    else:
-                        raise ANMLSyntaxError(
-                            f"bounds of type {type_res} must be integer or real constants"
-                        )
+                # The bounds are number literals ("3", "-2", "0.5", "5/2") or infinity;
+                # they are converted exactly, without passing through a float.
+                if interval[0] != TK_INFINITY:
+                    lower_bound = Fraction(interval[0])
+                if interval[1] != TK_INFINITY:
+                    upper_bound = Fraction(interval[1])
             else:
                 assert len(type_res) == 1, "Parse error"
             if name == TK_INTEGER:
-                if isinstance(lower_bound, Fraction) or isinstance(
-                    upper_bound, Fraction
-                ):
-                    raise ANMLSyntaxError(
-                        f"Integer bounds of {type_res} must be int expressions"
-                    )
-                return self._tm.IntType(lower_bound, upper_bound)
+                return self._tm.IntType(
+                    None if lower_bound is None else int(lower_bound),
+                    None if upper_bound is None else int(upper_bound),
+                )
             else:
-                if isinstance(lower_bound, int):
-                    lower_bound = Fraction(lower_bound)
-                if isinstance(upper_bound, int):
-                    upper_bound = Fraction(upper_bound)
                 return self._tm.RealType(lower_bound, upper_bound)
         else:
             ret_type = types_map.get(name, None)
